@@ -1,5 +1,6 @@
 import OnlVerif.Lemmas.Wire
 import OnlVerif.Lemmas.GenWire
+import OnlVerif.Props.C10K
 /-!
 # C10 — a wire delays each packet by its drawn delay, keeps order, loses only by rate
 
@@ -32,7 +33,7 @@ theorem wire_put_stamps (c : WireCfg ℚ) (s s' : FState ℚ (WireSt ℚ)) (p : 
     (h : step (Wire.dev c) s (.put p) = .ok (s', o)) :
     o = .accepted ∧ s'.items = s.items ++ [{ p with ctime := s.now }] ∧ s'.dev.packetsRec = s.dev.packetsRec + 1 ∧
     s'.now = s.now := by
-  simp only [step, dev_admit, admitPkt, if_true, Except.ok.injEq, Prod.mk.injEq] at h
+  simp only [Fifo.step, dev_admit, admitPkt, if_true, Except.ok.injEq, Prod.mk.injEq] at h
   obtain ⟨rfl, rfl⟩ := h
   exact ⟨rfl, rfl, rfl, rfl⟩
 
@@ -65,7 +66,7 @@ theorem wire_delivery_step (c : WireCfg ℚ) (s s' : FState ℚ (WireSt ℚ)) (x
     s'.now = s.now ∧
     (s.now < p.ctime + y → o = .nothing ∧ ∃ due, s'.tx = some (p, due, 0) ∧ due = p.ctime + y) ∧
     (¬ s.now < p.ctime + y → o = .depart p ∧ AtGet s') := by
-  simp only [step, hp, dev_onResume] at h
+  simp only [Fifo.step, hp, dev_onResume] at h
   rcases onResume_cases c s.dev s.now x y p with ⟨hl', _⟩ | ⟨_, hq, he⟩ | ⟨_, hq, he⟩
   · rw [hl] at hl'; cases hl'
   · rw [he] at h
@@ -200,7 +201,7 @@ theorem wire_loss_rule (c : WireCfg ℚ) (s s' : FState ℚ (WireSt ℚ)) (x y :
       exact ⟨r, ((lossOn_iff c r).mp h1).1, ((lossOn_iff c r).mp h1).2, h2⟩
     · rintro ⟨r, h1, h2, h3⟩
       exact ⟨r, (lossOn_iff c r).mpr ⟨h1, h2⟩, h3⟩
-  simp only [step, hp, dev_onResume] at h
+  simp only [Fifo.step, hp, dev_onResume] at h
   rcases onResume_cases c s.dev s.now x y p with ⟨hl, he⟩ | ⟨hl, hq, he⟩ | ⟨hl, hq, he⟩
   · rw [he] at h
     simp only [proceed, Except.ok.injEq, Prod.mk.injEq] at h
@@ -337,5 +338,88 @@ example : (match Cable.run { lossRate := none } (start 0, start 0)
     | .ok s => some (s.1.dev.log.map (fun e => (e.id, e.t)), s.2.dev.log.map (fun e => (e.id, e.t)))
     | .error _ => none) = some ([(1, 3)], [(2, 1)]) := by
   decide +kernel
+
+/-! ### the link to the kernel model (`OnlVerif/Props/C10K.lean`)
+
+The admissibility rules of the FifoServer LTS were so far *assumed* of the kernel for the wire.  `OnlVerif/Net/WireOnK.lean`
+writes `Wire.put`/`Wire.run` and a packet source as a program of the kernel model `K`, with the loss and delay draws as
+part of the workload; `Props/C10K.lean` proves the delivery formula of this property for its runs with no admissibility
+assumption.  The headline theorems are restated here so that the axiom audit covers them. -/
+
+/-- **The delivery recurrence holds for the Wire as a kernel process** (every `loss_rate`, every finite workload with
+non-negative gaps — bursts and arrivals at delivery instants included —, non-negative delay draws, any loss draws):
+`run()` of the kernel model returns with an empty agenda within `4·n + 4` steps and the `out.put` observations are exactly
+the packets whose loss draw is not `< loss_rate`, in arrival order, each at `max(a_k + d, previous delivery)`
+(`WireOnK.deliveries`, unfolded by `wire_on_kernel_delivery_recurrence`); lost packets delay nobody. -/
+theorem wire_on_kernel_deliveries (cfg : WireCfg ℚ) (losses delays arrivals : List ℚ)
+    (hg : ∀ x ∈ arrivals, 0 ≤ x) (hd : ∀ d ∈ delays, 0 ≤ d) (fuel n : Nat) (hn : 4 * arrivals.length + 4 ≤ n) :
+    ∃ sF, runAll (WireOnK.body cfg losses delays) (fuel + 1) n (WireOnK.initState arrivals) = .returned .none sF ∧
+      sF.agenda = [] ∧ WireOnK.outsOf sF.trace = WireOnK.deliveries cfg losses delays none 0 0 0 0 arrivals :=
+  C10K.wire_on_kernel_deliveries cfg losses delays arrivals hg hd fuel n hn
+
+/-- **What `WireOnK.deliveries` is**: a packet whose loss draw says "lost" is skipped and changes nothing for the others;
+any other packet is delivered at `max(arrival + d, previous delivery)` (`arrival + d` for the first). -/
+theorem wire_on_kernel_delivery_recurrence (cfg : WireCfg ℚ) (losses delays : List ℚ) (prev : Option ℚ) (t : ℚ)
+    (k nl nd : Nat) (gap : ℚ) (rest : List ℚ) :
+    (WireOnK.isLost cfg (WireOnK.draw losses nl) = true →
+      WireOnK.deliveries cfg losses delays prev t k nl nd (gap :: rest) =
+        WireOnK.deliveries cfg losses delays prev (t + gap) (k + 1) (WireOnK.nlNext cfg nl) nd rest) ∧
+    (WireOnK.isLost cfg (WireOnK.draw losses nl) = false →
+      WireOnK.deliveries cfg losses delays prev t k nl nd (gap :: rest) =
+        ((k : Int), (match prev with
+          | none => t + gap + WireOnK.draw delays nd
+          | some p => max (t + gap + WireOnK.draw delays nd) p)) ::
+          WireOnK.deliveries cfg losses delays
+            (some (match prev with
+              | none => t + gap + WireOnK.draw delays nd
+              | some p => max (t + gap + WireOnK.draw delays nd) p))
+            (t + gap) (k + 1) (WireOnK.nlNext cfg nl) (nd + 1) rest) :=
+  C10K.delivery_recurrence cfg losses delays prev t k nl nd gap rest
+
+/-- **`wire_no_loss` on the kernel**: with `loss_rate` `None` or `0` every packet handed to `put` is delivered, once, in
+arrival order, by the kernel run. -/
+theorem wire_on_kernel_no_loss (cfg : WireCfg ℚ) (hcfg : cfg.lossRate = none ∨ cfg.lossRate = some 0)
+    (losses delays arrivals : List ℚ) (hg : ∀ x ∈ arrivals, 0 ≤ x) (hd : ∀ d ∈ delays, 0 ≤ d) (fuel n : Nat)
+    (hn : 4 * arrivals.length + 4 ≤ n) :
+    ∃ sF, runAll (WireOnK.body cfg losses delays) (fuel + 1) n (WireOnK.initState arrivals) = .returned .none sF ∧
+      (WireOnK.outsOf sF.trace).map (·.1) = (List.range arrivals.length).map (fun (k : Nat) => (k : Int)) :=
+  C10K.wire_on_kernel_no_loss cfg hcfg losses delays arrivals hg hd fuel n hn
+
+/-- **The Wire process on the kernel model refines this LTS**: every kernel state reachable from the initial state is the
+image (under the abstraction function `WireOnK.absWire`, with some values `gh` in the ghost fields of the device state) of
+an action sequence this LTS accepts from `start 0`; the packets that entered are `0, …, packets_rec - 1`, the packets that
+left (forwarded or dropped) are those the kernel trace reports, in order. -/
+theorem wire_on_kernel_refines_lts (cfg : WireCfg ℚ) (losses delays arrivals : List ℚ) (hg : ∀ x ∈ arrivals, 0 ≤ x)
+    (fuel : Nat) (s : KState ℚ (WSt ℚ))
+    (hreach : KReach (WireOnK.body cfg losses delays) (fuel + 1) (WireOnK.initState arrivals) s) :
+    ∃ acts gh, runActs (Wire.dev cfg) (start 0) acts =
+      .ok (WireOnK.setGhost (WireOnK.absWire s) gh, List.range (WireOnK.recCell s),
+        (WireOnK.leftsOf s.trace).map Int.toNat) :=
+  C10K.wire_on_kernel_refines_lts cfg losses delays arrivals hg fuel s hreach
+
+/-- **`wire_order` transferred to kernel runs**: at every reachable kernel state the packets handed to `put` so far are,
+in order, exactly the packets that left (the `out` and `lost` observations of the trace) followed by the packets the wire
+still holds (handed over / propagating / waiting in the store): never reordered, nothing duplicated, nothing vanishes. -/
+theorem kernel_run_wire_order (cfg : WireCfg ℚ) (losses delays arrivals : List ℚ) (hg : ∀ x ∈ arrivals, 0 ≤ x)
+    (fuel : Nat) (s : KState ℚ (WSt ℚ))
+    (hreach : KReach (WireOnK.body cfg losses delays) (fuel + 1) (WireOnK.initState arrivals) s) :
+    List.range (WireOnK.recCell s) = (WireOnK.leftsOf s.trace).map Int.toNat ++ held (WireOnK.absWire s) := by
+  obtain ⟨acts, gh, h⟩ := wire_on_kernel_refines_lts cfg losses delays arrivals hg fuel s hreach
+  have := wire_order cfg 0 acts _ _ _ h
+  exact this
+
+/-- **`wire_delivery` / `wire_never_early` transferred to kernel runs**: the ghost log of the LTS run a reachable kernel state
+is the image of records, for every forwarded packet, `t = max(a + d, max(a, latest earlier delivery))`, never before `a + d`. -/
+theorem kernel_run_wire_delivery (cfg : WireCfg ℚ) (losses delays arrivals : List ℚ) (hg : ∀ x ∈ arrivals, 0 ≤ x)
+    (fuel : Nat) (s : KState ℚ (WSt ℚ))
+    (hreach : KReach (WireOnK.body cfg losses delays) (fuel + 1) (WireOnK.initState arrivals) s) :
+    ∃ gh : WireSt ℚ, ∀ (newer older : List (WireRec ℚ)) (e : WireRec ℚ), gh.log = newer ++ e :: older → e.lost = false →
+      e.t = max (e.a + e.d) (max e.a (prevDeliv 0 older)) ∧ e.a + e.d ≤ e.t := by
+  obtain ⟨acts, gh, h⟩ := wire_on_kernel_refines_lts cfg losses delays arrivals hg fuel s hreach
+  refine ⟨gh, ?_⟩
+  intro newer older e hlog hl
+  have h1 := (wire_delivery cfg 0 acts _ _ _ h newer older e hlog hl).1
+  have h2 := wire_never_early cfg 0 acts _ _ _ h e (by show e ∈ gh.log; rw [hlog]; simp) hl
+  exact ⟨h1, h2⟩
 
 end C10
